@@ -82,11 +82,6 @@ type gworld struct {
 	probeLocks bool
 	runActive  map[int]bool
 	usedDeps   [][]int // dependencies each query resolved in its last execution
-	// poisoned[k]: the current memo entry of k is an error that k's Execute
-	// propagated (Resolve's cancellation error, or a dependency's fatal error),
-	// not a value. Only possible after some Run was cancelled or panicked.
-	poisoned []bool
-
 	concurrentPanicPossible bool
 }
 
@@ -100,7 +95,6 @@ func newWorld(prop string, g GraphSpec, par int) *gworld {
 	w.memo = make([]bool, g.N)
 	w.executedBy = make([]int, g.N)
 	w.usedDeps = make([][]int, g.N)
-	w.poisoned = make([]bool, g.N)
 	for i := range w.executedBy {
 		w.executedBy[i] = -1
 	}
@@ -155,10 +149,7 @@ func (w *gworld) modelValue(id int, cache map[int]int64) int64 {
 func (q gquery) Execute(t *incremental.Task) (int64, error) {
 	w := q.w
 	run, _ := t.Context().Value(runTagKey{}).(int)
-	// (A poisoned entry may or may not have been kept by the executor: when the
-	// goroutine that propagated the error has also lost its semaphore hold to
-	// the cancellation, the executor drops the result instead of memoising it.)
-	if w.executing[q.id] || w.memo[q.id] && !w.poisoned[q.id] {
+	if w.executing[q.id] || w.memo[q.id] {
 		w.fail(viol(w.prop+"/executed-twice", "query %d executed (run %d) although it is already %s since its last eviction", q.id, run,
 			map[bool]string{true: "executing", false: "memoised"}[w.executing[q.id]]))
 	}
@@ -175,14 +166,12 @@ func (q gquery) Execute(t *incremental.Task) (int64, error) {
 
 	deps := w.effDeps(q.id)
 	w.usedDeps[q.id] = nil
-	// An execution that ends by propagating an error is memoised like any other
-	// (the executor cannot tell); the model records it as a poisoned entry.
-	poison := func() {
-		w.memo[q.id] = true
-		w.poisoned[q.id] = true
-		w.executedBy[q.id] = run
-		sim.S().Probe("memo-poisoned")
-	}
+	// The executor does not memoise what a query returned while the context of
+	// its Run was done (cancelled by the caller, by a panic of another query, or
+	// because the Run has already returned): the model does the same. Nothing
+	// can change the context between this check and the executor's own, because
+	// no scheduling point lies in between.
+	dropped := func() bool { return t.Context().Err() != nil }
 	groups := []int{len(deps)}
 	if q.id < len(w.g.Groups) && len(w.g.Groups[q.id]) > 0 {
 		groups = w.g.Groups[q.id]
@@ -204,13 +193,18 @@ func (q gquery) Execute(t *incremental.Task) (int64, error) {
 		w.usedDeps[q.id] = append(w.usedDeps[q.id], deps[pos:pos+n]...)
 		rs, err := incremental.Resolve(t, qs...)
 		if err != nil {
-			poison()
+			if !dropped() {
+				w.fail(viol(w.prop+"/resolve-failed-with-live-context", "Resolve called by query %d (run %d) returned %v although the context of the Run is not done", q.id, run, err))
+			}
 			return 0, err
 		}
 		for i, r := range rs {
 			w.obs = append(w.obs, observation{run: run, caller: q.id, dep: deps[pos+i], changed: r.Changed, value: r.Value, fatal: r.Fatal})
 			if r.Fatal != nil {
-				poison()
+				if !dropped() {
+					w.memo[q.id] = true
+					w.executedBy[q.id] = run
+				}
 				return 0, r.Fatal
 			}
 			vals = append(vals, r.Value)
@@ -225,9 +219,12 @@ func (q gquery) Execute(t *incremental.Task) (int64, error) {
 		sim.S().Fault("query-panic")
 		panic(pv)
 	}
-	w.memo[q.id] = true
-	w.poisoned[q.id] = false
-	w.executedBy[q.id] = run
+	if dropped() {
+		sim.S().Probe("result-dropped-run-cancelled")
+	} else {
+		w.memo[q.id] = true
+		w.executedBy[q.id] = run
+	}
 	return hashVals(q.id, w.input[q.id], vals), nil
 }
 
@@ -329,7 +326,6 @@ func (w *gworld) doEvict(keys []int, bump bool) {
 		}
 		for k := range w.upClosure(present) {
 			w.memo[k] = false
-			w.poisoned[k] = false
 		}
 	}
 	if bump {
